@@ -224,7 +224,7 @@ impl Prop for C11 {
     }
     fn gen(seed: u64, idx: u64, tier: Tier) -> CutCase {
         let mut r = Rng::new(seed);
-        let class = if idx < 11 { idx } else { 3 + r.below(8) };
+        let class = if idx < 19 { idx } else { 3 + r.below(9) };
         let spec = match class {
             0 => SeedSpec::Canned("minimal.mp4".into()),
             1 => SeedSpec::CannedFrag,
@@ -235,6 +235,9 @@ impl Prop for C11 {
             7 => SeedSpec::Meta { seed: r.below(1 << 20) },
             8 => SeedSpec::Frag { seed: r.below(1 << 20) },
             10 => SeedSpec::Hybrid { seed: r.below(1 << 20) },
+            // every table of the last track in turn as the final box of the file
+            11 => SeedSpec::MuxRotated { seed: r.below(1 << 20), k: r.below(8) as u8 },
+            12..=18 => SeedSpec::MuxRotated { seed: 7 + idx, k: (idx - 12) as u8 },
             _ => {
                 if (tier == Tier::Thorough && r.chance(1, 40)) || idx == 9 {
                     SeedSpec::Canned("big_buck_bunny_metadata.m4v".into())
@@ -386,7 +389,7 @@ impl Prop for C11 {
         false
     }
     fn mandatory_probes(_t: Tier) -> Vec<&'static str> {
-        vec!["probe.some_cut_opened", "image.canned_frag", "image.mux_reloc", "image.frag", "image.meta", "image.hybrid"]
+        vec!["probe.some_cut_opened", "image.canned_frag", "image.mux_reloc", "image.frag", "image.meta", "image.hybrid", "image.mux_rotated"]
     }
 }
 
